@@ -209,6 +209,12 @@ class ProgGen:
             return 0
         return self.r.choice([0, 1, 1, 2, 3, 5, 8, 13, 21, 40, 100])
 
+    def count(self):
+        """number of items of a task / section: sometimes none (empty task, section with only a wait)"""
+        if self.r.chance(1, 7):
+            return self.r.rng(0, self.fan)
+        return self.r.rng(1, self.fan + 1)
+
     def other(self):
         self.budget -= 1
         return ["O", self.D()] + self.FL() + [self.D(), self.W()] + self.FL()
@@ -216,7 +222,7 @@ class ProgGen:
     def task(self, depth, root=False):
         self.budget -= 2
         t = ["T", self.W(), 0 if root else self.D()] + self.FL()
-        k = self.r.rng(0, self.fan) if self.budget > 0 else 0
+        k = self.count() if self.budget > 0 else 0
         for _ in range(k):
             if self.budget <= 0:
                 break
@@ -229,7 +235,7 @@ class ProgGen:
     def section(self, depth, nest):
         self.budget -= 2
         items = []
-        k = self.r.rng(0, self.fan) if self.budget > 0 else 0
+        k = self.count() if self.budget > 0 else 0
         first = None
         for _ in range(k):
             if self.budget <= 0:
@@ -260,9 +266,9 @@ class ProgGen:
 def gen_case(r, cid, thorough, hexlim=40):
     nw = r.rng(1, 8)
     nf = r.choice([1, 1, 2, 3, 5, 8, 13, 50, r.rng(1, 50)])
-    depth = r.rng(0, 5)
-    fan = r.rng(0, 6)
-    budget = r.choice([6, 15, 40, 80, 160] + ([400, 800] if thorough else []))
+    depth = r.choice([0, 1, 2, 2, 3, 3, 4, 5])
+    fan = r.choice([0, 1, 2, 2, 3, 3, 4, 5, 6])
+    budget = r.choice([6, 20, 50, 100, 200, 300] + ([600, 1200] if thorough else []))
     names = gen_names(r, nf)
     prog = ProgGen(r, nw, nf, depth, fan, budget).task(depth, root=True)
     fam = r.choice(["none", "none", "default", "span", "span", "count", "count", "target", "target"])
@@ -270,10 +276,10 @@ def gen_case(r, cid, thorough, hexlim=40):
     if fam == "default":
         cmax = 1 << 60
     elif fam == "span":
-        umin = r.choice([0, 0, 1, 5, 20, 60, 200])
+        umin = r.choice([0, 0, 0, 1, 5, 20, 60])
         cmax = r.choice([0, 3, 10, 30, 100, 400, 1 << 60])
     elif fam == "count":
-        cmc = r.choice([1, 2, 3, 5, 8, 13, 30, 100])
+        cmc = r.choice([1, 2, 3, 4, 5, 8, 13, 30])
     elif fam == "target":
         nct = r.choice([1, 2, 5, 10, 20, 50])
         pth = r.choice([0, 1, 3, 8, 20, 60])
